@@ -194,21 +194,22 @@ def run_case(spec, ctx):
             ok0, _ = so.guarded(ctx, f"{label}.h", lambda: S.h(t, q, u), extra=ex)
             if not ok0:
                 continue
-            so.jac_call(ctx, f"{label}.h_q", lambda: S.h_q(t, q, u), lambda x: S.h(t, x, u), q, ex, _key, mon="D:h_q")
+            hq = so.quat_steps(S, q)       # (short non-unit quaternions are stepped relative to their own length)
+            so.jac_call(ctx, f"{label}.h_q", lambda: S.h_q(t, q, u), lambda x: S.h(t, x, u), q, ex, _key, mon="D:h_q", hrel=hq)
             so.jac_call(ctx, f"{label}.h_u", lambda: S.h_u(t, q, u), lambda x: S.h(t, q, x), u, ex, _key, mon="D:h_u")
-            so.jac_call(ctx, f"{label}.q_dot_q", lambda: S.q_dot_q(t, q, u), lambda x: S.q_dot(t, x, u), q, ex, _key, mon="D:q_dot_q")
+            so.jac_call(ctx, f"{label}.q_dot_q", lambda: S.q_dot_q(t, q, u), lambda x: S.q_dot(t, x, u), q, ex, _key, mon="D:q_dot_q", hrel=hq)
             so.jac_call(ctx, f"{label}.q_dot_u", lambda: S.q_dot_u(t, q), lambda x: S.q_dot(t, q, x), u, ex, _key, mon="D:q_dot_u")
             if S.nla_c:
-                so.jac_call(ctx, f"{label}.c_q", lambda: S.c_q(t, q, u, la_c), lambda x: S.c(t, x, u, la_c), q, ex, _key, mon="D:c_q")
+                so.jac_call(ctx, f"{label}.c_q", lambda: S.c_q(t, q, u, la_c), lambda x: S.c(t, x, u, la_c), q, ex, _key, mon="D:c_q", hrel=hq)
                 so.jac_call(ctx, f"{label}.c_u", lambda: S.c_u(t, q, u, la_c), lambda x: S.c(t, q, x, la_c), u, ex, _key, mon="D:c_u")
                 so.jac_call(ctx, f"{label}.c_la_c", lambda: S.c_la_c(), lambda x: S.c(t, q, u, x), la_c, ex, _key, mon="D:c_la_c")
-                so.jac_call(ctx, f"{label}.Wla_c_q", lambda: S.Wla_c_q(t, q, la_c), lambda x: dense(S.W_c(t, x)) @ la_c, q, ex, _key, mon="D:Wla_c_q")
+                so.jac_call(ctx, f"{label}.Wla_c_q", lambda: S.Wla_c_q(t, q, la_c), lambda x: dense(S.W_c(t, x)) @ la_c, q, ex, _key, mon="D:Wla_c_q", hrel=hq)
             else:
                 for m in ("D:c_q", "D:c_u", "D:c_la_c", "D:Wla_c_q"):
                     pass
             if S.nla_tau:
                 f_tau = lambda tt, qq, uu: dense(S.W_tau(tt, qq)) @ S.la_tau(tt, qq, uu)
-                so.jac_call(ctx, f"{label}.Wla_tau_q", lambda: S.Wla_tau_q(t, q, u), lambda x: f_tau(t, x, u), q, ex, _key, mon="D:Wla_tau_q")
+                so.jac_call(ctx, f"{label}.Wla_tau_q", lambda: S.Wla_tau_q(t, q, u), lambda x: f_tau(t, x, u), q, ex, _key, mon="D:Wla_tau_q", hrel=hq)
                 so.jac_call(ctx, f"{label}.Wla_tau_u", lambda: S.Wla_tau_u(t, q, u), lambda x: f_tau(t, q, x), u, ex, _key, mon="D:Wla_tau_u")
             # ---- the same state again, in another order: Jacobians must not depend on what was evaluated before
             calls = [("h_q", lambda: S.h_q(t, q, u)), ("h_u", lambda: S.h_u(t, q, u)), ("h", lambda: S.h(t, q, u)), ("q_dot_q", lambda: S.q_dot_q(t, q, u))]
